@@ -106,7 +106,7 @@ def run_case(case: dict[str, Any], tier: str, seed: int) -> dict[str, Any]:
     ref_model = None
     try:
         ref_model = prog.export(opset=default_opset)
-        if prog.numeric and not registry.model_is_random(ref_model):
+        if prog.numeric and registry.randomness(ref_model) == "no":
             sess = ortrun.session(ref_model)
             sig = prog.signature({s: 2 for s in prog.symbols})
             if prog.given is not None:
